@@ -1,3 +1,121 @@
-"""placeholder; real implementation below in a later commit"""
-def run_for(prop):
-    return {"ok": True, "failures": [], "summary": {"mutants_total": 0, "mutants_fired": 0, "neutral_total": 0, "neutral_silent": 0, "evaluations": 0}}
+"""Checker self-validation: every mutant patch must make its property's check fire, every neutral patch
+must keep it silent.  Patches are applied to scratch copies of /repo's *current working tree* (outside
+/repo and /verif), facts are re-extracted with the same driver, the rules evaluated, and the copy is
+deleted immediately.  This validates the checker; the verdict on the property is always the rule
+evaluation on /repo itself."""
+import concurrent.futures
+import glob
+import json
+import os
+import shutil
+import subprocess
+import sys
+import tempfile
+import time
+
+from . import facts
+
+VERIF = facts.VERIF
+WORKERS = int(os.environ.get("VERIF_SELFTEST_WORKERS", "4"))
+
+
+def corpus(prop):
+    """[(kind, name, patch path)] for one property: selftest/mutants/<prop>-*.patch, selftest/neutral/<prop>-*.patch,
+    selftest/neutral/ALL-*.patch and seeded/<id>/patch.diff whose meta.json names the property."""
+    out = []
+    for p in sorted(glob.glob(os.path.join(VERIF, "selftest", "mutants", f"{prop}-*.patch"))):
+        out.append(("mutant", os.path.basename(p)[:-6], p))
+    for p in sorted(glob.glob(os.path.join(VERIF, "selftest", "neutral", f"{prop}-*.patch"))) + sorted(glob.glob(os.path.join(VERIF, "selftest", "neutral", "ALL-*.patch"))):
+        out.append(("neutral", os.path.basename(p)[:-6], p))
+    for m in sorted(glob.glob(os.path.join(VERIF, "seeded", "*", "meta.json"))):
+        try:
+            meta = json.load(open(m))
+        except Exception:
+            continue
+        props = meta.get("caught_by") or [meta.get("property")]
+        if prop in props and meta.get("expect", "fire") == "fire":
+            pd = os.path.join(os.path.dirname(m), "patch.diff")
+            if os.path.isfile(pd):
+                out.append(("seeded", os.path.basename(os.path.dirname(m)), pd))
+    return out
+
+
+def make_scratch(repo):
+    d = tempfile.mkdtemp(prefix="anemo-selftest-")
+    r = subprocess.run(["git", "-C", repo, "ls-files", "-co", "--exclude-standard", "-z"], stdout=subprocess.PIPE)
+    files = [f for f in r.stdout.decode().split("\0") if f and not f.startswith("target/")]
+    if "Cargo.lock" not in files and os.path.isfile(os.path.join(repo, "Cargo.lock")):
+        files.append("Cargo.lock")      # git-ignored but part of what the build resolves against
+    for f in files:
+        src = os.path.join(repo, f)
+        if not os.path.isfile(src):
+            continue
+        dst = os.path.join(d, f)
+        os.makedirs(os.path.dirname(dst), exist_ok=True)
+        shutil.copy2(src, dst)
+    return d
+
+
+def evaluate(prop, kind, name, patch, worker):
+    """Returns dict(name, kind, ok, fired, keys, wall_s, error)."""
+    from .engine import run_property
+    t0 = time.time()
+    scratch = make_scratch(facts.REPO)
+    try:
+        r = subprocess.run(["git", "apply", "--whitespace=nowarn", patch], cwd=scratch, stdout=subprocess.PIPE, stderr=subprocess.STDOUT, text=True)
+        if r.returncode != 0:
+            r2 = subprocess.run(["patch", "-p1", "-s", "-i", patch], cwd=scratch, stdout=subprocess.PIPE, stderr=subprocess.STDOUT, text=True)
+            if r2.returncode != 0:
+                return {"name": name, "kind": kind, "ok": False, "fired": None, "keys": [], "wall_s": round(time.time() - t0, 1),
+                        "error": "patch does not apply to the current tree: " + (r.stdout + r2.stdout)[-300:]}
+        try:
+            violations, known_hits, ev, all_obs = run_property(prop, "quick", configs=["dev"], repo=scratch, target=f"target-st{worker}")
+        except facts.ExtractionError as e:
+            return {"name": name, "kind": kind, "ok": False, "fired": None, "keys": [], "wall_s": round(time.time() - t0, 1),
+                    "error": "patched tree does not type-check: " + str(e)[-300:]}
+        fired = len(violations) > 0
+        ok = fired if kind in ("mutant", "seeded") else (not fired)
+        return {"name": name, "kind": kind, "ok": ok, "fired": fired, "keys": [v.key for v in violations][:6], "wall_s": round(time.time() - t0, 1),
+                "obligations": len(all_obs), "error": None}
+    finally:
+        shutil.rmtree(scratch, ignore_errors=True)
+
+
+def run_for(prop, only=None):
+    items = corpus(prop)
+    if only:
+        items = [i for i in items if i[1] in only]
+    results = []
+    t0 = time.time()
+    if items:
+        with concurrent.futures.ThreadPoolExecutor(max_workers=WORKERS) as ex:
+            futs = []
+            for k, (kind, name, patch) in enumerate(items):
+                futs.append(ex.submit(evaluate, prop, kind, name, patch, k % WORKERS))
+            for f in futs:
+                results.append(f.result())
+    failures = []
+    for r in results:
+        if r["error"]:
+            failures.append(f"{r['kind']} {r['name']}: {r['error']}")
+        elif not r["ok"]:
+            failures.append(f"{r['kind']} {r['name']}: " + ("check stayed silent on a breaking change" if r["kind"] != "neutral" else f"check fired on a behaviour-preserving edit: {r['keys'][:2]}"))
+    mt = [r for r in results if r["kind"] in ("mutant", "seeded")]
+    nt = [r for r in results if r["kind"] == "neutral"]
+    summary = {"mutants_total": len(mt), "mutants_fired": len([r for r in mt if r["ok"]]), "neutral_total": len(nt), "neutral_silent": len([r for r in nt if r["ok"]]),
+               "evaluations": sum(r.get("obligations", 0) for r in results), "wall_s": round(time.time() - t0, 1),
+               "results": [{k: r[k] for k in ("name", "kind", "ok", "fired", "keys", "wall_s", "error")} for r in results]}
+    return {"ok": not failures, "failures": failures, "summary": summary}
+
+
+if __name__ == "__main__":
+    props = sys.argv[1:] or ["C%02d" % i for i in range(1, 21)]
+    bad = 0
+    for p in props:
+        r = run_for(p)
+        s = r["summary"]
+        print(f"{p}: mutants {s['mutants_fired']}/{s['mutants_total']} fired, neutral {s['neutral_silent']}/{s['neutral_total']} silent, {s['wall_s']}s")
+        for x in s["results"]:
+            print(f"   [{'ok' if x['ok'] else 'BAD'}] {x['kind']:7} {x['name']}  fired={x['fired']} {x['keys'][:1] if x['fired'] else ''} {x['error'] or ''}")
+        bad += len(r["failures"])
+    sys.exit(1 if bad else 0)
